@@ -874,8 +874,49 @@ func checkSchemaApply(c *Ctx) {
 			return fn.Name() == "Commit" && recvTypeName(fn) == "TxClient"
 		})
 		pts := f.find(txApply)
+		if len(pts) == 0 {
+			// the transactional branch may live in a package-local helper called from applyChanges
+			for _, call := range callsIn(fi.Decl.Body, true) {
+				fn := calleeOf(info, call)
+				if fn == nil || fn.Pkg() == nil || fn.Pkg().Path() != pCmdapi {
+					continue
+				}
+				cf := c.FuncInfoOf(fn)
+				if cf == nil || cf.Decl.Body == nil {
+					continue
+				}
+				hf := newFlow(cf.Info(), cf.Decl.Body)
+				hinfo := cf.Info()
+				htx := func(n ast.Node) bool {
+					hit := false
+					walkShallow(n, func(m ast.Node) bool {
+						call, ok := m.(*ast.CallExpr)
+						if !ok {
+							return true
+						}
+						se, ok := call.Fun.(*ast.SelectorExpr)
+						if ok && se.Sel.Name == "ApplyChanges" && typeIs(hinfo.TypeOf(se.X), modRoot+"/sql/sqlclient", "TxClient") {
+							hit = true
+						}
+						return true
+					})
+					return hit
+				}
+				if hp := hf.find(htx); len(hp) == 1 {
+					f, pts, info = hf, hp, hinfo
+					isRollback = f.callNode(func(fn *types.Func, _ *ast.CallExpr) bool {
+						return fn.Name() == "Rollback" && recvTypeName(fn) == "TxClient"
+					})
+					isCommit = f.callNode(func(fn *types.Func, _ *ast.CallExpr) bool {
+						return fn.Name() == "Commit" && recvTypeName(fn) == "TxClient"
+					})
+					c.funcs[cf.Name] = true
+					break
+				}
+			}
+		}
 		if len(pts) != 1 {
-			c.Unresolved("R13c", "applyChanges: exactly one tx.ApplyChanges call")
+			c.Unresolved("R13c", "applyChanges: exactly one tx.ApplyChanges call (in applyChanges or a helper it calls)")
 		} else {
 			errB, okB, _, shapeOK := f.errBranch(pts[0])
 			if !shapeOK {
